@@ -269,6 +269,34 @@ PROPS["C13"] = dict(
                "loops are assumed. A genuine defect found by this check (Io error yielded twice by a stream) was repaired in /repo.",
 )
 
+PROPS["C19"] = dict(
+    lean_targets=["SJ.Props.C19", "SJ.Audit.C19"],
+    configs=dict(quick=["rv"], thorough=["rv", "rvpofr"]),
+    gen_keys=["error.", "de."],
+    rule=PARSE_RULE + " C19 adds, with raw_value enabled: every token sequence of length <= 2 (thorough 3), generated documents and "
+         "their mutations captured at top level as Box<RawValue> and &RawValue from str/slice and Box<RawValue> from a reader "
+         "(five captures compared with each other, with the model and with the value's source text; a borrowed capture must be "
+         "a subslice at the right offset); arrays, objects and structs whose elements' exact source spans are known to the "
+         "generator, with every whitespace placement around them, captured as Vec<&RawValue>/Vec<Box<RawValue>>/BTreeMap/struct "
+         "fields (incl. an unknown field skipped in between); RawValue::from_string on the same inputs with to_string, pretty, "
+         "nested and to_value of the result.",
+    trusted_base=MACHINE_TB,
+    assumptions=["RawValue's transmutes between str and RawValue (layout) are outside the model",
+                 "nested captures (array element, object value, struct field) are checked against generator-known spans, not modelled"],
+    partial=["c19_skip_language (scanner accepts exactly the RFC 8259 grammar) = c01_complete_ignored + c19_skip_sound, proved on the "
+             "completeness/soundness branches; until merged the correspondence compares IgnoredAny with the independent recogniser on every input",
+             "c19_verbatim (serialising writes the text unchanged) is by correspondence only"],
+    technique="Lean 4 theorems on the top-level capture model (runPrefix = feed + finish: the captured span is accepted on its own as one "
+              "value; surroundings are whitespace) + span-exact differential run with generator-known element spans",
+    level_text="Machine-checked: runPrefix_feed and c19_captured_reparses (whatever is captured at top level, taken on its own, is "
+               "accepted by the scanner as exactly one value, from the first non-whitespace byte), skipWs_prefix (only whitespace "
+               "precedes it; rawTop rejects anything but whitespace after it). The crate's captures at top level and at every "
+               "nested position are compared byte for byte with the source spans; from_string/to_string/to_value round trips are "
+               "checked on every input.",
+    level_note="Trusted: Lean kernel + 3 standard axioms; extract.py; harness/driver; machine model (ignored target). The scanner-vs-"
+               "grammar equivalence is being proved separately (C01/C02 branches).",
+)
+
 # properties not claimed yet (kept current as checks are added)
 NOT_APPLICABLE = [
     dict(property_id=f"C{i:02d}", reason="check under construction in this build phase; not yet claimed (see DESIGN.md §11 build order)")
